@@ -3644,3 +3644,54 @@ func ruleC17SessionArchives(c *ctx.Ctx, r *core.Reporter) {
 		r.Check(ok, "prepares-own-packages", c.Pos(fd.Pos()), "the sources handed to compiler.PrepareAllSources are computed from the root package of the build (its dependency closure), not taken wholesale from the session (instance numbering would depend on what was built before)")
 	}
 }
+
+// ruleC06Float32From64: a 64-bit integer converted to float32 is rounded ONCE. Going through a float64
+// ($flatten64) rounds to 53 bits first; when that lands exactly between two float32 values the second
+// rounding ties to even although the integer was above or below the midpoint. The conversion therefore needs
+// a path of its own for 64-bit operands, which keeps the discarded bits as a sticky bit (round to odd).
+func ruleC06Float32From64(c *ctx.Ctx, r *core.Reporter) {
+	r.Begin("C06.float32-from-64", "F-MUST", "the conversion of a 64-bit integer to float32 does not go through $fround($flatten64(x)): translateConversion sends 64-bit operands to a prelude helper that folds the bits a float64 cannot hold into a sticky bit before the one rounding", 2)
+	fd := c.FuncDecl("compiler", "funcContext.translateConversion")
+	if fd == nil {
+		r.Undecided("translateConversion", "compiler/expressions.go", "not found")
+		return
+	}
+	helper := ""
+	site := fd.Pos()
+	ast.Inspect(fd.Body, func(x ast.Node) bool {
+		is, ok := x.(*ast.IfStmt)
+		if !ok || !strings.Contains(exprStr(is.Cond), "is64Bit(") {
+			return true
+		}
+		// inside the Float32 branch
+		inF32 := false
+		for _, g := range guardsAt(fd.Body, is.Pos()) {
+			if strings.Contains(exprStr(g.Cond), "types.Float32") && !g.Negated {
+				inF32 = true
+			}
+		}
+		if !inF32 {
+			return true
+		}
+		ast.Inspect(is.Body, func(y ast.Node) bool {
+			if bl, ok := y.(*ast.BasicLit); ok && strings.HasPrefix(bl.Value, `"$`) && strings.Contains(bl.Value, "(%e)") {
+				helper = strings.TrimSuffix(strings.Trim(bl.Value, `"`), "(%e)")
+				site = bl.Pos()
+			}
+			return true
+		})
+		return true
+	})
+	r.Check(helper != "" && helper != "$fround" && helper != "$flatten64", "conv:64-bit-operand-has-own-path", c.Pos(site), "under the float32 case, `is64Bit(<operand type>)` selects a helper of its own"+ternary(helper != "", " ("+helper+")", " (none found: float32(int64) is $fround($flatten64(x)), which rounds twice)"))
+	if helper == "" || !needPrelude(c, r) {
+		return
+	}
+	fn := c.PreludeFunc(helper)
+	if fn == nil {
+		r.Violation("helper:sticky-bit", "compiler/prelude/numeric.js", helper+" is not declared in the prelude")
+		return
+	}
+	src := squash(fn.Src())
+	sticky := (strings.Contains(src, "&0x7FF") || strings.Contains(src, "&2047")) && strings.Contains(src, "|") && strings.Contains(src, "$fround(")
+	r.Check(sticky, "helper:sticky-bit", fn.Pos(), helper+" masks the 11 low bits that do not fit into a float64, ORs their presence into the lowest kept bit, and rounds once with $fround")
+}
